@@ -72,7 +72,7 @@ def parseObs (kv : List (String × String)) (ammo : Nat := 0) : Option Obs := do
          jitter := (getI? kv "jitter").getD 0,
          lastshot := (getI? kv "lastshot").getD (-1), gunctx := (getI? kv "gunctx").getD (-1),
          shots, rpstot := (getI? kv "rpstot").getD (-1), ammo, rpsmin := (getI? kv "rpsmin").getD 0,
-         rpsspans := ← parseSpans (getS kv "rpsspans") }
+         rpsspans := ← parseSpans (getS kv "rpsspans"), mfin := getN? kv "mfin" }
 
 def reasonOf : String → Option ExitReason
   | "sched" => some .scheduleEnd
@@ -181,8 +181,24 @@ def poolReplay (perinst : Bool) (o : Obs) : PSt :=
 
 def natList (l : List Nat) : String := ",".intercalate (l.map toString)
 
+/-- how `Engine.Run` returns, where that does not depend on timing (the caller never cancels): the sequential loop of
+`Engine.Run` (`engSeq`, = the regenerated `engineRun`) fed with the results of the pools — a pool that failed (an instance could
+not be created, its provider / aggregator failed, a gun panicked) returns an error, every other pool returns without error
+once it has finished; `none`: not predicted -/
+def engineErr (ins obss : List String) : Option String :=
+  if ins.any (fun i => getS (parseKV i) "cancel" != "") || ins.length != obss.length then none else
+  let failed := obss.map fun o => match parsePairs (getS (parseKV o) "cuts") with
+    | some cs => cs.any (fun c => c.1 == "fail" || c.1 == "panic")
+    | none => false
+  let oks := (failed.filter (!·)).map fun _ => Pandora.Go.C12.EngEv.result true
+  let evs := if failed.any id then oks ++ [.result false] else oks
+  match (engSeq (obss.length : Int) 0 evs).ret with
+  | some .ok => some "nil"
+  | some .failed => some "other"
+  | _ => none
+
 /-- one pool: (model observation, verdict) -/
-def handlePool (input impl : String) : String × String :=
+def handlePool (input impl : String) (engErr : Option String := none) : String × String :=
   match parseParts (getS (parseKV input) "startup"), parseObs (parseKV impl) ((getN? (parseKV input) "ammo").getD 0) with
   | some parts, some o =>
     let perinst := getS (parseKV input) "perinst" == "1"
@@ -208,6 +224,8 @@ def handlePool (input impl : String) : String × String :=
       else o.starterr
     let mobs := " ".intercalate ((parseKV impl).map fun (a, b) =>
       if a == "k" then s!"k={k}" else if a == "mstart" then s!"mstart={k}"
+      else if a == "err" then s!"err={engErr.getD b}"
+      else if a == "mfin" then s!"mfin={o.exits.length}"
       else if a == "started" then (if o.started.isSome then s!"started={s.started}" else s!"started={b}")
       else if a == "starterr" then (if o.starterr == "?" then s!"starterr={b}" else s!"starterr={starterr}")
       else if a == "ids" then s!"ids={natList mids}"
@@ -230,7 +248,7 @@ def handle : Handler := fun input impl =>
   let ins := (input.splitOn "||").map fun x => x.trimAscii.toString
   let obss := (impl.splitOn "||").map fun x => x.trimAscii.toString
   if ins.length == obss.length then
-    let rs := (ins.zip obss).map fun (i, o) => handlePool i o
+    let rs := (ins.zip obss).map fun (i, o) => handlePool i o (engineErr ins obss)
     let mobs := if rs.any (·.1 == "-") then "-" else " || ".intercalate (rs.map (·.1))
     let v := match rs.find? (·.2.startsWith "fail") with
       | some r => r.2
